@@ -191,16 +191,16 @@ theorem show_parse (ts : List ETok) (e : Expr) (_h : parseTokensE ts = some (.ex
 theorem eval_parse_show (P : Prims) (env : Env) (e : Expr) :
     evalTokens P env (e.toks 0 ++ [.ch 59]) = some (eval P env e) := evalTokens_toks P env e
 
-/-! Non-vacuity on `a.b[1] | f: 'x"', -2 and (c or d.e contains "s")` (`exTree`, `exText`) -/
+/-! Non-vacuity on `a.b[1] | f: 'x"', -2 and (c or d.e contains "s")` (`rtExTree`, `rtExText`) -/
 
-example : exTree.show = exText := by decide +kernel
-example : exTree.printable = true := by decide +kernel
-example : parseExprSource exText = .ok exTree := by
-  have h : exTree.lexesBack := by unfold Expr.lexesBack; rfl
-  have := parse_show_source exTree h
-  rwa [show exTree.show = exText from by decide +kernel] at this
+example : rtExTree.show = rtExText := by decide +kernel
+example : rtExTree.printable = true := by decide +kernel
+example : parseExprSource rtExText = .ok rtExTree := by
+  have h : rtExTree.lexesBack := by unfold Expr.lexesBack; rfl
+  have := parse_show_source rtExTree h
+  rwa [show rtExTree.show = rtExText from by decide +kernel] at this
 /-- the same tree from another spelling: `( a .b [ 01 ]|f:'x"',-02 )and(c or(d.e)contains's')` -/
 example : parseExprSource [40, 32, 97, 32, 46, 98, 32, 91, 32, 48, 49, 32, 93, 124, 102, 58, 39, 120, 34, 39, 44, 45, 48, 50,
     32, 41, 97, 110, 100, 40, 99, 32, 111, 114, 40, 100, 46, 101, 41, 99, 111, 110, 116, 97, 105, 110, 115, 39, 115, 39,
-    41] = .ok exTree := rfl
-example : parseTokensE (exTree.toks 0 ++ [.ch 59]) = some (.expr exTree) := parse_show exTree
+    41] = .ok rtExTree := rfl
+example : parseTokensE (rtExTree.toks 0 ++ [.ch 59]) = some (.expr rtExTree) := parse_show rtExTree
